@@ -75,6 +75,7 @@ func (e *Env) Host() *load.Program {
 			panic(fmt.Sprintf("only %d module packages loaded from %s, expected at least 6", len(p.Pkgs), e.Repo))
 		}
 		e.host = p
+		pathProgram = p
 		e.R.Count(fmt.Sprintf("packages (%s/%s, type-checked + SSA)", e.GOOS, e.GOARCH), len(p.Pkgs))
 	}
 	return e.host
